@@ -68,3 +68,167 @@ package state
 //@   property C02
 //@   local txOutput *protos.TxOutput
 //@   at UtxoVM.SubBalance assert fee_from_proposer: $0 == block.Proposer && sel(bigval, $1) == natOf(txOutput.Amount)
+
+// ======================= C07: transaction integrity and authorisation =======================
+// Pure helpers: functions of the (unchanging) transaction / chain state during one verification.
+//@ func github.com/xuperchain/xupercore/bcs/ledger/xledger/state/utxo/txhash.MakeTransactionID
+//@   noverify
+//@   pure
+//@ func github.com/xuperchain/xupercore/bcs/ledger/xledger/state/utxo/txhash.MakeTxDigestHash
+//@   noverify
+//@   pure
+//@ func github.com/xuperchain/xupercore/bcs/ledger/xledger/state/xmodel.ParseContractUtxoInputs
+//@   noverify
+//@   pure
+//@ func State.VerifyReservedWhitelist
+//@   noverify
+//@   pure
+//@ func State.GetReservedContractRequests
+//@   noverify
+//@   pure
+//@ func State.VerifyReservedContractRequests
+//@   noverify
+//@   pure
+//@ func State.queryAccountACL
+//@   noverify
+//@   pure
+
+// passed[tx][k] counts successful runs of check k on transaction tx (ghost history);
+// k: 1 signatures, 2 utxo permission, 3 contract permission, 4 contract amount,
+// 5 rwset permission, 6 rwset re-execution.
+//@ ghost var passed (Array Int (Array Int Int))
+//@ macro passInc(p, tx, k, ok) = ok ? upd(p, tx, upd(sel(p, tx), k, sel(sel(p, tx), k) + 1)) : p
+//@ macro passedNow(tx, k) = sel(sel(passed, tx), k) > sel(sel(old(passed), tx), k)
+
+// akProved(tx, a, d): some signature carried by the transaction identifies address a over digest d.
+//@ macro akProved(tx, a, d) = (exists j int :: 0 <= j && j < len(tx.AuthRequireSigns) && utils.IdentifyAK(a, tx.AuthRequireSigns[j], d)) || (exists j int :: 0 <= j && j < len(tx.InitiatorSigns) && utils.IdentifyAK(a, tx.InitiatorSigns[j], d))
+
+// Signatures (individual-signature form): accepted only if every address recorded
+// as verified is identified by a signature of the transaction over the digest, every
+// listed signer (last segment of each auth_require entry) is among them, and the
+// initiator is - directly (address) or through its account rule (account).
+//@ func State.verifySignatures
+//@   property C07
+//@   sets passed = passInc(old(passed), tx, 1, result0)
+//@   ensures existing_maps_untouched: mapsFrame(string, bool, nil)
+//@   ensures identities_in_a_new_map: result1 == nil || isfresh(result1)
+//@   ensures verified_means_signed: result0 && tx.XuperSign == nil ==> result1 != nil && (forall a string :: in(result1, a) ==> akProved(tx, lastSeg(a), digestHash) || akProved(tx, a, digestHash))
+//@   ensures every_listed_signer_verified: result0 && tx.XuperSign == nil ==> len(tx.AuthRequire) == len(tx.AuthRequireSigns) && (forall k int :: 0 <= k && k < len(tx.AuthRequire) ==> in(result1, lastSeg(tx.AuthRequire[k])))
+//@   ensures initiator_verified: result0 && tx.XuperSign == nil ==> (utils.IsAccount(tx.Initiator) == 0 && in(result1, tx.Initiator)) || (utils.IsAccount(tx.Initiator) == 1 && len(tx.InitiatorSigns) >= 1)
+//@   loop 1 invariant frame: mapsFrame(string, bool, nil)
+//@   loop 2 invariant frame: mapsFrame(string, bool, nil)
+//@   loop 1 invariant initiator_keys: verifiedAddr != nil && (forall a string :: in(verifiedAddr, a) ==> akProved(tx, lastSeg(a), digestHash) || akProved(tx, a, digestHash)) && 0 <= $i && $i <= len(tx.InitiatorSigns)
+//@   loop 2 invariant listed_signers: verifiedAddr != nil && 0 <= $i && $i <= len(tx.AuthRequire) && len(tx.AuthRequire) == len(tx.AuthRequireSigns) && (forall a string :: in(verifiedAddr, a) ==> akProved(tx, lastSeg(a), digestHash) || akProved(tx, a, digestHash)) && (forall k int :: 0 <= k && k < $i ==> in(verifiedAddr, lastSeg(tx.AuthRequire[k]))) && ((utils.IsAccount(tx.Initiator) == 0 && in(verifiedAddr, tx.Initiator)) || (utils.IsAccount(tx.Initiator) == 1 && len(tx.InitiatorSigns) >= 1))
+
+// Spent outputs: every input whose owner is not among the verified identities is
+// either justified by the contract-utxo entry the transaction carries (checked by
+// re-execution) or belongs to an account whose rule the listed signers satisfy; an
+// unsigned plain address is refused.
+//@ func State.verifyUTXOPermission
+//@   property C07
+//@   sets passed = passInc(old(passed), tx, 2, result0)
+//@   ensures other_maps_untouched: mapsFrame(string, bool, verifiedID)
+//@   ensures owners_authorised: result0 ==> (forall i int :: 0 <= i && i < len(tx.TxInputs) ==> in(verifiedID, str(tx.TxInputs[i].FromAddr)) || contractSpent(tx, i))
+//@   ensures identities_added_only_by_account_rule: result0 ==> (forall n string :: in(verifiedID, n) ==> old(in(verifiedID, n)) || (utils.IsAccount(n) == 1 && utils.IdentifyAccount(t.sctx.AclMgr, n, tx.AuthRequire)))
+//@   loop 2 invariant checked: conUtxoInputsMap != nil && 0 <= $i && $i <= len(tx.TxInputs) && (forall i int :: 0 <= i && i < $i ==> in(verifiedID, str(tx.TxInputs[i].FromAddr)) || contractSpent(tx, i)) && (forall n string :: in(verifiedID, n) ==> old(in(verifiedID, n)) || (utils.IsAccount(n) == 1 && utils.IdentifyAccount(t.sctx.AclMgr, n, tx.AuthRequire))) && (forall k string :: in(conUtxoInputsMap, k) && conUtxoInputsMap[k] ==> conKey(tx, k))
+//@   loop 1 invariant frame: mapsFrame(string, bool, verifiedID)
+//@   loop 2 invariant frame: mapsFrame(string, bool, verifiedID)
+//@   loop 1 invariant identities_untouched: conUtxoInputsMap != verifiedID && (forall n string :: in(verifiedID, n) == old(in(verifiedID, n)))
+//@   loop 1 invariant con_map: conUtxoInputsMap != nil && (forall k string :: in(conUtxoInputsMap, k) && conUtxoInputsMap[k] ==> conKey(tx, k))
+// conKey(tx, k): k is the key of one of the inputs listed in the transaction's contract-utxo entry
+//@ macro conKey(tx, k) = exists c int :: 0 <= c && c < len(xmodel.ParseContractUtxoInputs(tx)) && k == utxo.GenUtxoKey(cuFrom(tx, c), cuTxid(tx, c), cuOff(tx, c))
+//@ macro cuFrom(tx, c) = xmodel.ParseContractUtxoInputs(tx)[c] == nil ? nil : xmodel.ParseContractUtxoInputs(tx)[c].FromAddr
+//@ macro cuTxid(tx, c) = xmodel.ParseContractUtxoInputs(tx)[c] == nil ? nil : xmodel.ParseContractUtxoInputs(tx)[c].RefTxid
+//@ macro cuOff(tx, c) = xmodel.ParseContractUtxoInputs(tx)[c] == nil ? 0 : xmodel.ParseContractUtxoInputs(tx)[c].RefOffset
+//@ macro contractSpent(tx, i) = conKey(tx, utxo.GenUtxoKey(tx.TxInputs[i] == nil ? nil : tx.TxInputs[i].FromAddr, tx.TxInputs[i] == nil ? nil : tx.TxInputs[i].RefTxid, tx.TxInputs[i] == nil ? 0 : tx.TxInputs[i].RefOffset))
+
+// removeDuplicateUser builds its result with a local dedupe map.
+//@ func State.removeDuplicateUser
+//@   noverify
+//@   ensures existing_maps_untouched: mapsFrame(string, bool, nil)
+//@ func State.verifyXuperSign
+//@   noverify
+//@   ensures existing_maps_untouched: mapsFrame(string, bool, nil)
+//@   ensures identities_in_a_new_map: result1 == nil || isfresh(result1)
+//@ func State.verifyContractPermission
+//@   noverify
+//@   sets passed = passInc(old(passed), tx, 3, result0)
+//@   ensures other_maps_untouched: mapsFrame(string, bool, nil)
+//@ func State.verifyContractTxAmount
+//@   noverify
+//@   sets passed = passInc(old(passed), tx, 4, result0)
+//@   ensures other_maps_untouched: mapsFrame(string, bool, nil)
+//@ func State.verifyRWSetPermission
+//@   noverify
+//@   sets passed = passInc(old(passed), tx, 5, result0)
+//@   ensures other_maps_untouched: mapsFrame(string, bool, verifiedID)
+
+// A transaction is accepted only in versions 1..3 (0 only for the root transaction),
+// never if auto-generated, and only if its id is the hash of its content and the six
+// checks each passed for THIS transaction, the signature check over ITS digest.
+//@ func State.ImmediateVerifyTx
+//@   property C07
+//@   sets passed = passInc(passed, tx, 0, result0)
+//@   ensures verdict_recorded: result0 ==> sel(sel(passed, tx), 0) > sel(sel(old(passed), tx), 0)
+//@   ensures counters_monotone: (forall x int, k int :: sel(sel(passed, x), k) >= sel(sel(old(passed), x), k))
+//@   ensures existing_maps_untouched: mapsFrame(string, bool, nil)
+//@   assumes slices_untouched: slicesFrame(ref)
+//@   assumes transactions_untouched: forall x *xldgpb.Transaction :: x.Txid == old(x.Txid) && x.Autogen == old(x.Autogen) && x.Coinbase == old(x.Coinbase)
+//@   at State.verifySignatures assert digest_of_this_tx: $0 == tx && $1 == txhash.MakeTxDigestHash(tx) && txhash.MakeTxDigestHash#1(tx) == nil
+//@   at State.verifyUTXOPermission assert with_verified_identities: $0 == tx && $1 == verifiedID
+//@   at State.verifyRWSetPermission assert with_verified_identities: $0 == tx && $1 == verifiedID
+//@   ensures version_in_range: result0 ==> 0 <= old(tx.Version) && old(tx.Version) <= 3 && (old(tx.Version) == 0 ==> isRootTx) && !old(tx.Autogen)
+//@   ensures id_is_content_hash: result0 && old(tx.Version) > 0 ==> txhash.MakeTransactionID#1(tx) == nil && bytesEq(old(tx.Txid), txhash.MakeTransactionID(tx))
+//@   ensures all_checks_passed: result0 && old(tx.Version) > 0 ==> passedNow(tx, 1) && passedNow(tx, 2) && passedNow(tx, 3) && passedNow(tx, 4) && passedNow(tx, 5) && passedNow(tx, 6)
+//@   ensures rejection_has_error: !result0 ==> result1 != nil
+
+// Re-execution: without contract requests a transaction must carry neither a read
+// nor a write set; with requests, acceptance requires the re-executed write set to
+// equal the declared one (details: C09).
+//@ ghost var lastEqualOK bool
+//@ func github.com/xuperchain/xupercore/bcs/ledger/xledger/state/xmodel.Equal
+//@   noverify
+//@   sets lastEqualOK = result
+//@ func State.verifyTxRWSets
+//@   property C07 C09
+//@   sets passed = passInc(passed, tx, 6, result0)
+//@   ensures verdict_recorded: result0 ==> sel(sel(passed, tx), 6) > sel(sel(old(passed), tx), 6)
+//@   assumes existing_maps_untouched: mapsFrame(string, bool, nil)
+//@   ensures counters_monotone: (forall x int, k int :: sel(sel(passed, x), k) >= sel(sel(old(passed), x), k))
+//@   ensures no_code_no_rwset: result0 && tx != nil && !t.VerifyReservedWhitelist(tx) && old(tx.ContractRequests) == nil ==> old(tx.TxInputsExt) == nil && old(tx.TxOutputsExt) == nil
+//@   ensures reexecuted_writes_equal_declared: result0 && tx != nil && !t.VerifyReservedWhitelist(tx) && old(tx.ContractRequests) != nil ==> lastEqualOK
+
+// ---- callers: nothing is applied unverified ----
+//@ func State.verifyMarked
+//@   noverify
+//@   pure
+//@ func State.ImmediateVerifyAutoTx
+//@   noverify
+//@   ensures slices_untouched: slicesFrame(ref)
+//@   ensures transactions_untouched: forall x *xldgpb.Transaction :: x.Txid == old(x.Txid) && x.Autogen == old(x.Autogen) && x.Coinbase == old(x.Coinbase)
+//@   ensures counters_monotone: (forall x int, k int :: sel(sel(passed, x), k) >= sel(sel(old(passed), x), k))
+//@   ensures existing_maps_untouched: mapsFrame(string, bool, nil)
+//@ func State.verifyAutogenTxValid
+//@   noverify
+//@   pure
+//@ ghost var accepted (Array Int Int)
+// (ImmediateVerifyTx's overall verdict is recorded as check 0 of the transaction.)
+
+// A block transaction is passed over only if the node verified it in its own pool,
+// it is exempt (coinbase / auto-generated, checked elsewhere), ImmediateVerifyTx
+// accepted it, or it is tolerated by the marked-transaction rule with a POSITIVE
+// verdict; the function stops at the first tolerated transaction (the rest of that
+// DAG is then not covered by this contract: suspected defect, not replayable without
+// a regulator-signed marked transaction).
+//@ macro dagTxOK(t, txs, k, utc) = old(utc[str(txs[k].Txid)]) || old(txs[k].Autogen) || old(txs[k].Coinbase) || sel(sel(passed, txs[k]), 0) > sel(sel(old(passed), txs[k]), 0)
+//@ macro dagTolerated(t, txs, k) = t.verifyMarked(txs[k]) && t.verifyMarked#1(txs[k]) && t.verifyMarked#2(txs[k]) == nil
+//@ func State.verifyDAGTxs
+//@   property C07
+//@   ensures every_block_tx_verified_or_exempt: result == nil ==> (forall k int :: 0 <= k && k < len(txs) ==> dagTxOK(t, txs, k, unconfirmToConfirm)) || (exists j int :: 0 <= j && j < len(txs) && dagTolerated(t, txs, j) && (forall k int :: 0 <= k && k < j ==> dagTxOK(t, txs, k, unconfirmToConfirm)))
+//@   loop 1 invariant verified_so_far: 0 <= $i && $i <= len(txs) && (forall k int :: 0 <= k && k < $i ==> dagTxOK(t, txs, k, unconfirmToConfirm)) && (forall n string :: in(unconfirmToConfirm, n) == old(in(unconfirmToConfirm, n)) && unconfirmToConfirm[n] == old(unconfirmToConfirm[n])) && (forall x int, k int :: sel(sel(passed, x), k) >= sel(sel(old(passed), x), k)) && (forall x *xldgpb.Transaction :: x.Txid == old(x.Txid) && x.Autogen == old(x.Autogen) && x.Coinbase == old(x.Coinbase)) && slicesFrame(ref)
+
+// The pool path: VerifyTx answers true only if ImmediateVerifyTx accepted or the
+// marked-transaction rule tolerates the transaction with a positive verdict.
+//@ func State.VerifyTx
+//@   property C07
+//@   ensures positive_verdict_needs_verification: result0 ==> sel(sel(passed, tx), 0) > sel(sel(old(passed), tx), 0) || (t.verifyMarked(tx) && t.verifyMarked#1(tx))
